@@ -70,10 +70,17 @@ def gen_events(rng, prog, n):
             u = rng.choice(und)
             users = [d for d in cur["defs"].values() if d["kind"] != "var" and any(t == u for t, _ in d["refs"])]
             where = users[0]["where"]
-            cur["defs"][u] = dict(kind="var", where=where, value=rng.randint(1, 9))
-            cur["order"] = [u] + cur["order"]
-            acts = [["setvar", where, u, repr(cur["defs"][u]["value"])]]
-            desc = ["define-undefined-symbol", u]
+            if u in cur.get("late_builtin", []):
+                # the name was a builtin so far: the module now defines a plain function of that name
+                cur["defs"][u] = dict(c01._fn("plain", []), where=where, const=rng.randint(1, 9))
+                cur["order"] = [u] + cur["order"]
+                acts = c01.event_actions(prev, cur)
+                desc = ["shadow-builtin", u]
+            else:
+                cur["defs"][u] = dict(kind="var", where=where, value=rng.randint(1, 9))
+                cur["order"] = [u] + cur["order"]
+                acts = [["setvar", where, u, repr(cur["defs"][u]["value"])]]
+                desc = ["define-undefined-symbol", u]
         elif r < 0.70 and mems:
             # replace a memento function by a plain one (same name), or back
             cands = [x for x, d in cur["defs"].items() if d["kind"] != "var" and x[0] == "m"]
@@ -123,7 +130,14 @@ def gen_events(rng, prog, n):
             desc = ["create-" + how, name, base]
         else:
             continue
-        out.append((desc, acts, copy.deepcopy(cur), dict(clones)))
+        qn = None
+        if rng.random() < 0.5:
+            # version queries are interleaved at every position, for any subset of the live objects
+            live = [x for x, d in cur["defs"].items() if d["kind"] == "memento"] + list(clones)
+            qn = [x for x in live if rng.random() < 0.5]
+        out.append((desc, acts, copy.deepcopy(cur), dict(clones), qn))
+    if out:
+        out[-1] = out[-1][:4] + (None,)
     return out
 
 
@@ -208,6 +222,24 @@ def directed_scenarios():
         evs.append([["edit", "gx", name], c01.event_actions(prev, cur), cur, {}])
         prev = cur
     out.append(dict(note="string constant of a generator expression edited", program=g0, events=evs))
+    # a modifier clone created and not asked for its version while a variable goes A -> B -> A and the function itself is
+    # asked in state B; the clone is asked first at the end
+    for how in ("ignore", "partial", "force_local"):
+        c0 = dict(defs={"V1": dict(kind="var", where="mod", value=1), "m1": f("memento", [["V1", "bare"]]), "m2": f("memento", [["m1", "bare"]])},
+                  order=["V1", "m1", "m2"])
+        c1 = copy.deepcopy(c0); c1["defs"]["V1"]["value"] = 2
+        c2 = copy.deepcopy(c0)
+        evs = [[["create-" + how, "c1", "m1"], [["clone", "c1", "m1", how]], c0, {"c1": "m1"}, ["m1", "m2"]],
+               [["edit", "var", "V1"], c01.event_actions(c0, c1), c1, {"c1": "m1"}, ["m1", "m2"]],
+               [["edit", "var", "V1"], c01.event_actions(c1, c2), c2, {"c1": "m1"}, ["c1"]],
+               [["edit", "var", "V1"], [], c2, {"c1": "m1"}, None]]
+        out.append(dict(note="clone kept unused across A -> B -> A", program=c0, events=evs))
+    # a builtin name used by a function is shadowed by a function of the module
+    s0 = dict(defs={"m1": f("memento", [["abs", "bare"]]), "m2": f("memento", [["m1", "bare"]])}, order=["m1", "m2"], late_builtin=["abs"])
+    s1 = copy.deepcopy(s0); s1["defs"]["abs"] = f("plain", [], const=4); s1["order"] = ["abs", "m1", "m2"]
+    s2 = copy.deepcopy(s1); s2["defs"]["abs"]["const"] = 5
+    out.append(dict(note="builtin shadowed by a function of the module", program=s0,
+                    events=[[["shadow-builtin", "abs"], c01.event_actions(s0, s1), s1, {}], [["edit", "const", "abs"], c01.event_actions(s1, s2), s2, {}]]))
     return out
 
 
@@ -287,9 +319,11 @@ def scenario(prog, events, root, with_model=False):
     vprogs.write_package(prog, sub, "vpk")
     acts = [["import"], ["versions"]]
     marks = [(None, 1, prog, {})]
-    for desc, a, after, clones in events:
+    for ev in events:
+        desc, a, after, clones = ev[:4]
+        qn = ev[4] if len(ev) > 4 else None          # which objects are asked for their version at this position (None: all)
         acts += a
-        acts.append(["versions"])
+        acts.append(["versions"] if qn is None else ["versions", list(qn)])
         marks.append((desc, len(acts) - 1, after, clones))
     out = vrun.child(dict(root=sub, pkg="vpk", store=None, actions=acts))
     cache = {}
@@ -306,6 +340,8 @@ def scenario(prog, events, root, with_model=False):
         for name, d in after["defs"].items():
             if d["kind"] != "memento":
                 continue
+            if name not in got:
+                continue                              # not asked at this position
             g, e = got.get(name), exp.get(name)
             if isinstance(g, str) and g.startswith("err:"):
                 fails.append(dict(clause="version-query-succeeds", event=desc, event_index=ei, fn=name, got=g))
@@ -462,7 +498,7 @@ def main(chk, replay=None):
     if replay is not None:
         root = tempfile.mkdtemp(prefix="c13r_")
         try:
-            evs = [(e[0], e[1], e[2], e[3]) for e in replay["events"]]
+            evs = [tuple(e) for e in replay["events"]]
             fails = scenario(replay["program"], evs, root)
             print(json.dumps(dict(still_fails=bool(fails), observed=fails[:2]), default=str))
             return 1 if fails else 0
@@ -490,6 +526,12 @@ def main(chk, replay=None):
             user = r.choice([x for x in fnames if prog["defs"][x]["where"] == "mod"] or fnames)
             prog["defs"][user]["refs"].append(["U1", "bare"])
             prog["late"] = ["U1"]
+        if r.random() < 0.5:
+            # a builtin name that the module may later shadow with a function of its own
+            users = [x for x in fnames if prog["defs"][x]["where"] == "mod" and not prog["defs"][x].get("aslambda")]
+            if users:
+                prog["defs"][r.choice(users)]["refs"].append(["abs", "bare"])
+                prog["late_builtin"] = ["abs"]
         evs = gen_events(r, prog, r.randint(2, maxev))
         root = tempfile.mkdtemp(prefix="c13_", dir=chk.tmpdir())
         try:
@@ -500,7 +542,7 @@ def main(chk, replay=None):
 
     def work_corpus(item):
         root = tempfile.mkdtemp(prefix="c13c_", dir=chk.tmpdir())
-        evs = [(e[0], e[1], e[2], e[3]) for e in item["events"]]
+        evs = [tuple(e) for e in item["events"]]
         try:
             if item.get("known"):
                 # the code is known to deviate from the model here: the property's oracle only
